@@ -394,7 +394,10 @@ def produced_kinds(repo: Repo) -> Dict[str, str]:
             for a in anns:
                 skip.update(id(y) for y in ast.walk(a))
         import typing as _typing
-        for x in ast.walk(fi.node):
+        # module-level tables the function reads by name ((list, List), (set, Set) ...): an alias kept there is built with
+        tables = [tym.constants[y.id] for y in ast.walk(fi.node) if isinstance(y, ast.Name) and isinstance(y.ctx, ast.Load) and y.id in tym.constants
+                  and isinstance(tym.constants[y.id], (ast.Tuple, ast.List, ast.Dict, ast.Set))]
+        for x in itertools.chain(ast.walk(fi.node), *[ast.walk(t) for t in tables]):
             if id(x) in skip:
                 continue
             # a typing alias used as a value (subscripted here, or handed to a helper that subscripts it)
